@@ -1,3 +1,4 @@
+import NrDaemon.Gen.SpanQueue
 /-!
   Model of the trace-observer span queue (`infinite_tracing/trace_observer.go`): the producer (`QueueBatch`, called on
   the processor goroutine), the worker (`doStreaming` inside the restart loop of `newTraceObserverWithWorker`), the two
@@ -34,6 +35,11 @@ structure SQ where
 deriving Repr, DecidableEq
 
 def SQ.init (q : Nat) : SQ := { q := q, remaining := q }
+
+/-- the queue size `newTraceObserverWithWorker` works with: the configured one (an agent-supplied `uint64`), lowered to
+the regenerated bound `maxQueueSize` when the source has one -/
+def effectiveQueueSize (configured : Nat) : Nat :=
+  if Gen.SpanQueue.maxQueueSize ≠ 0 ∧ configured > Gen.SpanQueue.maxQueueSize then Gen.SpanQueue.maxQueueSize else configured
 
 def sum (l : List Nat) : Nat := l.foldl (· + ·) 0
 
